@@ -317,6 +317,11 @@ struct ScaledUnit : Unit {
                   "Can only scale by a Magnitude<...> type");
     using Dim = detail::DimT<Unit>;
     using Mag = MagProductT<detail::MagT<Unit>, ScaleFactor>;
+
+    // Erase the label we would otherwise inherit from `Unit`: this is a _different_ unit.  Without
+    // this, an unlabeled strong typedef of a scaled unit would print the unscaled unit's label.
+    // (A named unit that supplies its own `label` member simply hides this alias in turn.)
+    using label = void;
 };
 
 // Type template to hold the product of powers of Units.
